@@ -1102,6 +1102,9 @@ decl(struct scope *s, struct func *f)
 					tentativedefnsend = &d->next;
 				}
 				break;
+			} else if (d->linkage != LINKNONE && d->defined) {
+				/* thread-local object that is already defined */
+				break;
 			}
 			defineobj(d, init, hasinit, f);
 			break;
